@@ -376,7 +376,13 @@ def ir_words(t):
         raise Unmodelled(f"operator {n}/{len(args)}")
     if ty == "call":
         n = name.lower()
-        args = [a for a in t["args"] if not (isinstance(a, str) and a.strip() == ",")]
+        args = t["args"]
+        if isinstance(args, str):          # visit_FunctionArguments: a single numeric literal arrives as its text
+            try:
+                args = [float(args)]
+            except ValueError:
+                raise Unmodelled(f"argument string {args!r}")
+        args = [a for a in args if not (isinstance(a, str) and a.strip() == ",")]
         if not re.fullmatch(r"[\w]+", n):
             raise Unmodelled(f"function {n!r}")
         if n == "if" and len(args) == 3:
@@ -432,8 +438,10 @@ def gen_arith(rng, depth, nvars, st):
         st["ops"]["if"] = st["ops"].get("if", 0) + 1
         return ("if", gen_cond(rng, depth - 1, nvars, st), gen_sent(rng, depth - 1, nvars, st), gen_sent(rng, depth - 1, nvars, st))
     if r < 29:
+        # a comparison used as a number — only as a factor next to a literal: numpy booleans (comparisons of np.exp/np.log
+        # results) do not support unary minus and bool±bool, which is outside what C03 fixes
         st["ops"]["cmpval"] = st["ops"].get("cmpval", 0) + 1
-        return ("paren", gen_cond(rng, depth - 1, nvars, st))
+        return ("bin", "*", ("paren", gen_cond(rng, depth - 1, nvars, st)), ("num", rng.choice(["2", "3", "10"])))
     # builtins
     f = rng.choice(F1 + ["min", "max", "safediv", "step", "ramp", "rootn", "init", "min3", "safediv3", "max"])
     st["fns"][f] = st["fns"].get(f, 0) + 1
@@ -502,8 +510,6 @@ def gen_sent(rng, depth, nvars, st):
     if r == 0 and depth > 0:
         st["ops"]["if"] = st["ops"].get("if", 0) + 1
         return ("ifs", gen_cond(rng, depth - 1, nvars, st), gen_sent(rng, depth - 1, nvars, st), gen_sent(rng, depth - 1, nvars, st))
-    if r == 1 and depth > 0:
-        return gen_cond(rng, depth - 1, nvars, st)
     return gen_arith(rng, depth, nvars, st)
 
 
@@ -564,6 +570,17 @@ class Speller:
         return self.child(g[2], ld) + self.sp(word) + o + self.sp(word) + self.child(g[3], rd)
 
 
+def peg_rejects(eq):
+    """None if the real PEG + visitor + generator accept the equation, else the exception name.  The supported grammar of
+    C03 is what grammar.py accepts; anything else must — and here does — raise."""
+    from BPTK_Py.sdcompiler.parsers.smile.grammar import grammar, SMILEVisitor
+    try:
+        gen_mod().parseExpression(SMILEVisitor().visit(grammar.parse(eq)))
+        return None
+    except BaseException as ex:
+        return type(ex).__name__
+
+
 def make_doc(rng, st):
     """returns (xml text, [(declared name, equation text)], spec)"""
     nconst = rng.range(3, 5)
@@ -582,8 +599,17 @@ def make_doc(rng, st):
         eqs.append((names[i], rng.choice(CONSTS)))
     for j in range(neq):
         i = nconst + j
-        g = gen_sent(rng, rng.range(1, 4), i, st)
-        eqs.append((names[i], sp.show(g)))
+        for attempt in range(6):
+            g = gen_sent(rng, rng.range(1, 4) if attempt < 5 else 0, i, st)
+            text = sp.show(g)
+            rej = peg_rejects(text)
+            if rej is None:
+                break
+            st.setdefault("peg_rejected", {})
+            st["peg_rejected"][rej] = st["peg_rejected"].get(rej, 0) + 1
+            if len(st.setdefault("peg_rejected_samples", [])) < 8:
+                st["peg_rejected_samples"].append(text[:160])
+        eqs.append((names[i], text))
     spec = rng.choice([(0.0, 4.0, 1.0, "1"), (0.0, 4.0, 0.5, "0.5"), (1.0, 5.0, 1.0, "1"), (0.0, 3.0, 0.25, "0.25")])
     return doc_xml(eqs, spec), eqs, spec
 
@@ -796,19 +822,19 @@ def run(chk):
             if corr is not None:
                 break
             parts = r.split("\t")
-            if len(parts) != 6 or not parts[0].startswith("ok parse=1"):
+            if len(parts) != 5 or not parts[0].startswith("ok parse=1"):
                 corr = ("driver-rejects", eq, r[:300], text); break
             flags = dict(x.split("=") for x in parts[0].split(" ")[1:])
-            if parts[4] != " ".join(pyw):
-                corr = ("model-text-vs-real-text", eq, parts[4], " ".join(pyw))
+            if parts[3] != " ".join(pyw):
+                corr = ("model-text-vs-real-text", eq, parts[3], " ".join(pyw))
             elif any(flags.get(k) != "1" for k in ("flatx", "wl", "flatir", "same", "known", "valid", "knownir")) or flags.get("compile") != "text":
                 corr = ("translation-validation", eq, parts[0], text)
             elif parts[1] != rsx:
                 corr = ("reference-parsers-differ", eq, parts[1], rsx)
-            elif parts[3] != parts[5]:
-                corr = ("text-does-not-parse-to-image", eq, f"trans {parts[3]}", f"parse {parts[5]}")
-            elif parts[5] != cpy:
-                corr = ("lean-parse-vs-cpython", eq, parts[5], cpy)
+            elif parts[2] != parts[4]:
+                corr = ("text-does-not-parse-to-image", eq, f"trans {parts[2]}", f"parse {parts[4]}")
+            elif parts[4] != cpy:
+                corr = ("lean-parse-vs-cpython", eq, parts[4], cpy)
         chk.cov["traces_validated_against_impl"] = len(meta)
         # ---------------- reference check: values
         for di, n, eq, pn, env, spec, sim, times in evals:
